@@ -146,7 +146,7 @@ def build_controller(cfg):
     C = controller_nonMPI(num_procs=cfg.get('num_procs', 1), controller_params=cp, description=desc)
     for S in C.MS:
         for L in S.levels:
-            ex.exactify(L, dt=F(cfg['dt']))
+            ex.exactify(L, dt=F(cfg['dt']), small=cfg.get('small_tables'))
             L.params.restol = F(cfg['restol']) if cfg.get('restol', -1) not in (-1, None) else L.params.restol
         td = S._Step__transfer_dict
         seen = set()
@@ -154,8 +154,12 @@ def build_controller(cfg):
             bt = meth.__self__
             if id(bt) not in seen:
                 seen.add(id(bt))
-                bt.Pcoll = ex.frac_array(bt.Pcoll)
-                bt.Rcoll = ex.frac_array(bt.Rcoll)
+                if cfg.get('small_tables'):
+                    bt.Pcoll = ex.small_rational(bt.Pcoll, cfg['small_tables'])
+                    bt.Rcoll = ex.small_rational(bt.Rcoll, cfg['small_tables'])
+                else:
+                    bt.Pcoll = ex.frac_array(bt.Pcoll)
+                    bt.Rcoll = ex.frac_array(bt.Rcoll)
     return C
 
 
